@@ -65,6 +65,8 @@ def contract(qual, **kw):
                 d[k] = v.__func__
         d.update(kw)
         c = Contract(qual, **d)
+        if qual in REGISTRY:
+            raise ValueError(f"two contracts for {qual}: callers would see whichever module was imported last")
         REGISTRY[qual] = c
         return c
 
